@@ -275,7 +275,19 @@ def restore_options_vc(S, prefix='restore-options'):
         parser = I.call(I.lookup('trashcli.restore.restore_arg_parser',
                                  'RestoreArgParser'), [], {})
         toks, picked, pos, ddash = _tokens(ctx, RESTORE_TABLE, max_pos=1)
-        curdir = arg_str('curdir')
+        # the current directory as getcwd() reports it: '/' or an absolute,
+        # normalised path without trailing slash (never a leading '//')
+        if len(picked) == 2:
+            # pairs of options are about the option fields; the directory
+            # arithmetic is covered with symbolic directories for <= 1 option
+            curdir = '/cur/dir'
+        elif ctx.choose(2, 'cwd-is-root') == 0:
+            curdir = '/'
+        else:
+            curdir = arg_str('curdir')
+            ctx.assume(z3.And(z3.PrefixOf(SV('/'), curdir.t), curdir.t != SV('/'),
+                              spec.clean_path(curdir.t)))
+            spec.mark_noendslash(ctx, curdir.t)
         argv0 = arg_str('argv0')
         sort_vals = [val for (tok, _t, eff), val in picked if eff == ('sort', 'value')]
         try:
@@ -321,11 +333,18 @@ def restore_options_vc(S, prefix='restore-options'):
             ctx.oblige(prefix + '/sort-key-maps-to-its-mode',
                        z3.And(*[z3.Implies(sv.t == SV(k), z3.BoolVal(got == m))
                                 for k, m in SORTS.items()]))
+        # C13: "the requested directory (default: the current one)": the
+        # operand is taken relative to the current directory, which getcwd()
+        # reports absolute and normalised ('/' for the root, never '//')
         p = pos[0].t if pos else SV('')
         ctx.ghost['normpath_no_shape_fork'] = True
-        wantp = spec.normpath(ctx, spec.join2(z3.Concat(curdir.t, SV('/')), p))
+        cd = z3str(curdir)
+        wantp = spec.normpath(ctx, spec.join2(cd, p, ctx))
         ctx.oblige(prefix + '/path-is-the-operand-under-the-current-directory-normalised',
                    z3str(f['path']) == wantp)
+        if not pos:
+            ctx.oblige(prefix + '/the-default-directory-is-the-current-one',
+                       z3str(f['path']) == cd)
         ctx.cover(prefix + '/cover-end')
     S.run_paths(prefix, body)
 
